@@ -1161,7 +1161,7 @@ NETS = [
     ("avgpool_k256x257_valid", n_pool(AV, (256, 257), (1, 1), "VALID", ish=(1, 260, 260, 1)), AV, "filter product 65792 VALID"),
     ("mean_hw", n_mean((1, 8, 8, 4), (1, 2)), "MEAN", "inside"),
     ("mean_h_w4096", n_mean((1, 4, 4096, 2), (1,)), "MEAN", "width 4096, only H reduced"),
-    ("mean_h_w4097", n_mean((1, 4, 4097, 2), (1,)), "MEAN", "width 4097, width axis NOT reduced"),
+    ("mean_h_w4097", n_mean((1, 4, 4097, 2), (1,)), "MEAN", "width 4097, width axis NOT reduced: inside (the limit is on the reduced extent)"),
     ("mean_w_w4097", n_mean((1, 4, 4097, 2), (2,)), "MEAN", "width 4097 reduced"),
     ("mean_int16_256x256", n_mean((1, 256, 256, 1), (1, 2), "int16"), "MEAN", "int16 product 65536"),
     ("mean_int16_256x257", n_mean((1, 256, 257, 1), (1, 2), "int16"), "MEAN", "int16 product 65792"),
